@@ -13,12 +13,13 @@ PROPS = {
     'C06': {
         'units': ['unify'],
         'functions': ['unifiable.rs::Unifiable::unify'],
-        'oracles': {'#sound': 'c06_mgu', '#args_sound_inv': 'c06_mgu', '#bind_sound': 'c06_mgu', '*': 'c06_keeps'},
+        'oracles': {'#sound': 'c06_mgu', '#args_sound_inv': 'c06_mgu', '#bind_sound': 'c06_mgu', '#list_sound_inv': 'c06_mgu',
+                    '#list_sound_step': 'c06_mgu', '#list_sound_exits': 'c06_mgu', '*': 'c06_keeps'},
         'bounded': [('c06_mgu', 'the clauses not under proof - success exactly when a unifier exists, identical when resolved, no more bindings than an MGU - against a reference unifier: '
                                 '22 terms (atoms, numbers, variables, $_, complex terms, lists with and without tail variables) pairwise under 7 prior substitutions; occurs-check pairs skipped')],
         'not_covered': [
             'completeness in general (unification succeeds whenever a unifier exists) - only the constant/constant and unbound-variable/constant cases are proved',
-            'soundness (identical when resolved, to every depth; $_ as wildcard) IS proved for atoms, numbers, variables and complex terms nested to any depth; positions holding a list are not constrained by the proved clause (resolution through bound tails is not yet under proof) - they are covered by the bounded reference-unifier oracle',
+            'soundness (identical when resolved, to every depth; $_ as wildcard; a tail variable standing for the rest of the other list) IS proved for all term kinds including lists; function terms are outside C06 (C13)',
             'minimality of the binding set in general (proved: equal terms add nothing; every new binding is of a previously unbound variable)',
             'termination of unify (recursion through bound variables has no structural measure; exec_allows_no_decreases_clause)',
         ],
